@@ -588,6 +588,10 @@ pub fn run(op: &str, a: &Args) -> Option<Outcome> {
         ["info", kind, opn] => Some(info_op(kind, opn, a)),
         ["dom", kind, opn] => Some(dom_op(kind, opn, a)),
         ["order", "script"] => Some(crate::ops_more::order_script(arg(a, "script"))),
+        ["xpath", "mutants"] => Some(crate::ops_seq::xpath_mutant(arg(a, "query"))),
+        ["xpath", "deep"] => Some(crate::ops_seq::xpath_deep(arg(a, "doc"))),
+        ["xpath", "deep_inproc"] => Some(crate::ops_seq::xpath_deep_inproc(arg(a, "doc"))),
+        ["xpath", "corpus_repeat"] => Some(crate::ops_seq::xpath_corpus_repeat(arg(a, "doc").parse().unwrap_or(0), arg(a, "query"), arg(a, "expected"))),
         ["xpath", "corpus_order"] => Some(crate::ops_seq::xpath_corpus_order(arg(a, "doc").parse().unwrap_or(0), arg(a, "query"), arg(a, "expected"))),
         ["xpath", "corpus"] | ["xpath", "corpus_paths"] | ["xpath", "corpus_scalars"] | ["xpath", "corpus_scalars0"] | ["xpath", "corpus_names"] => Some(crate::ops_seq::xpath_corpus(arg(a, "doc").parse().unwrap_or(0), arg(a, "query"), arg(a, "expected"))),
         ["xpath", rest @ ..] => crate::ops_more::xpath_op(rest, a),
@@ -762,6 +766,29 @@ pub fn grid(op: &str, limit: usize) -> (usize, Vec<(Args, Outcome)>) {
         ["dom", "views_after_edits"] | ["dom", "keys_after_edits"] | ["dom", "preorder_after_edits"] | ["dom", "children_after_edits"] => {
             for sc in crate::ops_more::EDIT_SCENARIOS {
                 try_one(mk(&[("scenario", sc)]), &mut n, &mut bad);
+            }
+        }
+        ["xpath", "deep"] => {
+            for sh in crate::ops_seq::XPATH_DEEP {
+                try_one(mk(&[("doc", sh)]), &mut n, &mut bad);
+            }
+        }
+        ["xpath", "mutants"] => {
+            for line in crate::ops_seq::XPATH_MUTANTS.lines() {
+                let q = crate::ops_more::unescape_line(line);
+                try_one(mk(&[("query", q.as_str())]), &mut n, &mut bad);
+            }
+        }
+        ["xpath", "corpus_repeat"] => {
+            // every 7th corpus entry (each is evaluated four times)
+            for (i, line) in crate::ops_seq::XPATH_CORPUS.lines().enumerate() {
+                if i % 7 != 0 {
+                    continue;
+                }
+                let mut it = line.splitn(3, '\t');
+                let (d, q, e) = (it.next().unwrap_or(""), it.next().unwrap_or(""), it.next().unwrap_or(""));
+                let q = crate::ops_more::unescape_line(q);
+                try_one(mk(&[("doc", d), ("query", q.as_str()), ("expected", e)]), &mut n, &mut bad);
             }
         }
         ["xpath", "corpus_order"] => {
